@@ -166,8 +166,12 @@ func runC13(c *Ctx) {
 			var sets []ssa.Instruction
 			ir.Instrs(cl[0], func(in ssa.Instruction) {
 				if s, ok := in.(*ssa.Store); ok {
-					if _, isFV := s.Addr.(*ssa.FreeVar); isFV {
-						sets = append(sets, in)
+					// (the captured variable of type Status; other captured
+					// variables - counters, flags - are not the result)
+					if fv, isFV := s.Addr.(*ssa.FreeVar); isFV {
+						if p, ok := fv.Type().(*types.Pointer); ok && namedTypeIs(p.Elem(), ir.ModPath+"/banman", "Status") {
+							sets = append(sets, in)
+						}
 					}
 				}
 			})
